@@ -14,9 +14,12 @@ PCLASS = ['interior', 'interior', 'vertex', 'facet', 'boundary', 'edge', 'outsid
 def mesh_for_points(draw, tier, max_cells=24, max3=10):
     # convex cells, first order; hexahedra/prisms with planar faces (their finders split into tetrahedra)
     kind = draw(st.sampled_from(['line', 'tri', 'tri', 'quad', 'tet', 'hex', 'wedge']))
+    # a third of the meshes are plain structured grids with dyadic coordinates (what most users have): reference coordinates of
+    # facet and vertex points are then recovered EXACTLY (0.0 / 1.0), which is where equality-keyed per-point tables collide
+    plain = dict(allow_affine=False, allow_jiggle=False, renum=False, local=False, bases=['tensor']) if draw(st.integers(0, 2)) == 0 else {}
     if kind in ('hex', 'wedge'):
-        return draw(gm.mesh(kinds=(kind,), max_cells_3d=max3, allow_jiggle=False))
-    return draw(gm.mesh(kinds=(kind,), max_cells=max_cells, max_cells_3d=max3))
+        return draw(gm.mesh(kinds=(kind,), max_cells_3d=max3, **dict(dict(allow_jiggle=False), **plain)))
+    return draw(gm.mesh(kinds=(kind,), max_cells=max_cells, max_cells_3d=max3, **plain))
 
 
 @st.composite
@@ -181,6 +184,9 @@ def case_eval(draw, tier):
     k = draw(st.integers(0, 9))
     base = draw(ge.simple(kind, pred=lambda e: not e['family'].startswith('global') and e['family'] != 'skeleton',
                           exclude=('ElementTriN3',)))
+    if kind in ('line', 'quad') and draw(st.integers(0, 2)) == 0:
+        # the two element classes that keep per-point tables on the instance (the property names per-point caches)
+        base = {'cls': 'ElementLinePp' if kind == 'line' else 'ElementQuadP', 'p': draw(st.integers(2, 4))}
     if k == 6 and ge.R[base['cls']]['scalar']:
         el = {'cls': 'ElementVector', 'of': base}
     elif k == 7 and ge.R[base['cls']]['scalar']:
